@@ -83,6 +83,72 @@ def orderTargetValue (ins : SzIns) (target marketValue price acctCash : R) (clos
 def stockOrderTo (ins : SzIns) (quantity : R) (posQty : Int) : Option (Bool × Int) :=
   orderShares ins (quantity - R.ofInt posQty) posQty
 
+/-! ### order_target_portfolio -/
+
+/-- `_round_order_quantity(ins, quantity, method=round)` -/
+def roundOrderQtyRound (ins : SzIns) (q : R) : Int :=
+  if ins.isKSH then (if (if q < 0 then -q else q) < kshMinAmount then 0 else R.truncI q)
+  else R.decQuotRound10 q (R.ofInt ins.lot) * ins.lot
+
+/-- one entry of the target portfolio, with what the function reads for it -/
+structure OtpItem where
+  ins : SzIns
+  percent : R            -- target weight (≥ 0)
+  last : R               -- last price (valid)
+  openP : R              -- price of the opening style: its limit, or the last price for a market order
+  closeP : R             -- same for the closing style
+  openMkt : Bool
+  closeMkt : Bool
+  cur : Int              -- current holding
+  isCS : Bool            -- common stock (stamp tax on sales); funds are not
+
+/-- an order the function creates: index of the entry, side, quantity, limit (none = market) -/
+structure OtpOrder where
+  idx : Nat
+  isBuy : Bool
+  qty : Int
+  limit : Option R
+deriving Repr
+
+/-- the closing orders (entries whose rounded difference is negative), in entry order, and the entries waiting to buy.
+-/
+def otpSplit (value : R) : List OtpItem → Nat → List (OtpOrder × R × Bool) × List (Nat × OtpItem × Int)
+  | [], _ => ([], [])
+  | it :: rest, i =>
+    let (cs, ws) := otpSplit value rest (i + 1)
+    let d := roundOrderQtyRound it.ins (value * it.percent / it.closeP - R.ofInt it.cur)
+    if d = 0 then (cs, ws)
+    else if d > 0 then (cs, (i, it, d) :: ws)
+    else
+      let q := min (-d) it.cur              -- (repaired) never more than is held: an odd lot that rounds up is sold whole
+      ((⟨i, false, q, if it.closeMkt then none else some it.closeP⟩, (if it.closeMkt then it.last else it.closeP), it.isCS) :: cs, ws)
+
+/-- the buying pass: each waiting entry in order against the running cash estimate -/
+def otpBuys (costV : R → R) : R → List (Nat × OtpItem × Int) → List OtpOrder
+  | _, [] => []
+  | est, (i, it, d) :: rest =>
+    let cost := R.ofInt d * it.last + costV (R.ofInt d * it.last)
+    if cost > est then
+      let d2 := roundOrderQty it.ins (est / it.last)
+      if d2 = 0 then otpBuys costV est rest
+      else
+        let cost2 := R.ofInt d2 * it.last + costV (R.ofInt d2 * it.last)
+        ⟨i, true, d2, if it.openMkt then none else some it.openP⟩ :: otpBuys costV (est - cost2) rest
+    else ⟨i, true, d, if it.openMkt then none else some it.openP⟩ :: otpBuys costV (est - cost) rest
+
+/-- `order_target_portfolio` for a target whose keys cover every current holding (holdings outside the target are sold
+at market first, before the account is read): `value` = account total value, `cash` = available cash,
+`costV v` = `get_transaction_cost_with_value(v)` (signed value: negative = sale), `sellCost isCS q price` = estimated cost
+of a closing order.  Closing orders first, then the opening orders. -/
+def orderTargetPortfolio (value cash : R) (items : List OtpItem) (costV : R → R) (sellCost : Bool → Int → R → R) : List OtpOrder :=
+  let total := R.pysum (items.map (·.percent))
+  let value' := if total == 1 then
+      value - items.foldl (fun acc it => acc + costV (it.percent * value - R.ofInt it.cur * it.last)) 0
+    else value
+  let (cs, ws) := otpSplit value' items 0
+  let est := cash + R.pysum (cs.map (fun (o, frozen, isCS) => R.ofInt o.qty * frozen - sellCost isCS o.qty frozen))
+  cs.map (·.1) ++ otpBuys costV est ws
+
 /-! ### futures -/
 
 structure Leg where
